@@ -1099,3 +1099,45 @@ func progSig(ps *progSet) string {
 	}
 	return s
 }
+
+func init() { register("run-if-accepted", runIfAccepted) }
+
+// run-if-accepted <programs.ndjson>: "a script accepted at load time never crashes the host" for programs around the boundary of
+// acceptance. Every program is offered to the real loader; whatever the loader accepts - also what it should have rejected -
+// is run (under the panic guard and the watchdog, the signal firing after a poll budget). A panic or a hang is reported.
+func runIfAccepted(args []string) (any, error) {
+	sum := &Summary{Extra: map[string]any{}}
+	accepted, rejected := 0, 0
+	hangs := 0
+	err := readNDJSON(args[0], func(raw json.RawMessage) error {
+		var ps progSet
+		if err := json.Unmarshal(raw, &ps); err != nil {
+			return err
+		}
+		if hangs > 3 {
+			return nil
+		}
+		sum.Evaluations++
+		disturbParser()
+		res := runOnce(&ps, 0, 400)
+		switch {
+		case res.panicV != "":
+			sum.miss("accepted-then-panic:"+ps.Scripts[ps.Main], map[string]any{"scripts": ps.Scripts, "v2": ps.V2, "panic": res.panicV})
+			accepted++
+		case res.hang:
+			hangs++
+			sum.miss("accepted-then-hang:"+ps.Scripts[ps.Main], map[string]any{"scripts": ps.Scripts, "v2": ps.V2})
+			accepted++
+		case res.loadErr != nil:
+			rejected++
+		default:
+			accepted++
+			sum.Distinct++
+		}
+		return nil
+	})
+	sum.Extra["accepted_and_run"] = accepted
+	sum.Extra["rejected_at_load"] = rejected
+	sum.sample(map[string]any{"accepted_and_run": accepted, "rejected_at_load": rejected})
+	return sum, err
+}
